@@ -214,6 +214,7 @@ def gen_config(prop, sub, run_id, n, shape):
         "pickle_at_put": rng.random() < 0.2,
         "stdout": rng.random() < 0.1,  # no -o: the GAF goes to standard output
         "existing_output": rng.random() < 0.15,  # -o names an existing file
+        "cli": rng.random() < 0.2,  # enter through gaftools.__main__.main(argv) instead of realign.main(args)
     }
     cfg["max_steps"] = 150000 + 400 * n  # steps allowed after the chaos phase
     if prop == "C13":
@@ -642,6 +643,7 @@ def shrink(repo, viol, budget_s=90.0, log=None):
         ch |= try_cfg(lambda c: c["cfg"].__setitem__("pickle_at_put", False))
         ch |= try_cfg(lambda c: c["cfg"].__setitem__("stdout", False))
         ch |= try_cfg(lambda c: c["cfg"].__setitem__("existing_output", False))
+        ch |= try_cfg(lambda c: c["cfg"].__setitem__("cli", False))
         for nf in range(len(case["cfg"].get("faults", [])) - 1, -1, -1):
             ch |= try_cfg(lambda c, nf=nf: c["cfg"]["faults"].pop(nf) if len(c["cfg"]["faults"]) > nf else None)
         for f_i in range(len(case["cfg"].get("faults", []))):
